@@ -94,6 +94,19 @@ def run(chk, st, tier):
                 chk.broke("correspondence:C16", "writing %s differs between implementation and model" % (w.describe(),))
             if pw and "1" not in pw[0]:
                 files.append((w, b"".join(pw[1])))
+    # conformant files of another writer: file_offset conventions other than the library's (0, end of chunk), statistics in
+    # either form, created_by, key/value metadata ... - the introspection calls must report them as they are
+    from . import foreign as Fo
+    fcases = []
+    for k in range(30 if tier == "quick" else 300):
+        sh = shapes[k % len(shapes)]
+        fcases.append(("f%d" % k, sh, Fo.gen_file_choice(rng), Fo.gen_batches(rng, sh, maxrecs=5 if sh.name != "flat24" else 3)))
+    ffiles, fe = Fo.make_files(shapes, fcases, "C16-foreign")
+    if fe[0] != 0:
+        chk.broke("machinery:C16", "foreign writer failed: %s" % (fe[1],))
+    for ident, sh, fc, b in fcases:
+        if ident in ffiles:
+            files.append((Fm.Workload(sh, 0, 0, [x for batch in b for x in batch + ["W"]], "foreign:" + Fo.file_choice_tokens(fc)[:60]), ffiles[ident]))
     lines = []
     for i, (w, f) in enumerate(files):
         lines.append("i%d introspect %s" % (i, C.hexs(f)))
@@ -134,7 +147,7 @@ def run(chk, st, tier):
     chk.coverage["model_vs_impl_mismatches"] = mism
     if files:
         chk.sample({"file": files[0][0].describe(), "library": (impl.get("i0") or "")[:200]})
-    chk.coverage["rule"] = ("portfolio files (random histories, page sizes {1,2,3,7,1000}, 3 codecs; plus files whose string values and statistics exceed 1 KiB / 64 KiB): parquet.ReadMetaData, PageHeaders and PageHeadersAtOffset (per chunk) on the real bytes, compared field by field with "
+    chk.coverage["rule"] = ("portfolio files (random histories, page sizes {1,2,3,7,1000}, 3 codecs; plus files whose string values and statistics exceed 1 KiB / 64 KiB, plus conformant files of the independent foreign writer with its file_offset / statistics / metadata conventions): parquet.ReadMetaData, PageHeaders and PageHeadersAtOffset (per chunk) on the real bytes, compared field by field with "
                             "(a) the footer and the page headers the extracted independent validator finds by walking the file, and (b) the Coq model of the three calls. Plus files of ~64 / ~1020 row groups whose footer length lies within 12 bytes below to 3 above 4096 / 65536 (found by writing a grid with the real writer), checked against what their construction implies (model too slow at this many row groups). distinct = distinct files; non-trivial = at least one row group.")
     chk.coverage["explanation"] = "see coq/props/C16.v."
     chk.assumptions += ['validator walk is independent of parquet.PageHeaders; thrift model tested against the library']
